@@ -90,7 +90,7 @@ theorem centre_frob (ctx : SweepCtx k H qd numiter) {s : Sweep 𝕜} {c : Nat} {
 theorem centre_step_ok (ctx : SweepCtx k H qd numiter) (hm : 1 ≤ numiter) {s : Sweep 𝕜} {c : Nat} {E : ℝ}
     (h : DInv H qd s c E) (δ : 𝕜) :
     ∃ A1, localHamiltonianStep k (getBL s c) (getBR s c) (H.A.getD c zeroT4) (getA s c) δ numiter = .ok A1 :=
-  localStep_isOk (cnorm_pos_flat3 ctx.norm (by rw [centre_frob ctx h]; exact one_pos)) hm (ctx.eigh _ _) δ
+  localStep_isOk ctx.norm (cnorm_pos_flat3 ctx.norm (by rw [centre_frob ctx h]; exact one_pos)) hm (ctx.eigh _ _) δ
 
 /-- **the left-to-right loop body returns** and keeps both invariants -/
 theorem tdvp1Left_ok (ctx : SweepCtx k H qd numiter) (hexp : ∀ x : ℝ, ‖k.dexp (RCLike.I * (x : 𝕜))‖ = 1)
@@ -144,7 +144,7 @@ theorem tdvp1Left_ok (ctx : SweepCtx k H qd numiter) (hexp : ∀ x : ℝ, ‖k.d
   have hfrobC : frob2 C = 1 := by
     rw [← frob_mulRight hAiIso hCm, frob3_congr (X := mulRight Ai C) (Y := A1) rfl rfl hCn hA1, hfrobA1]
   obtain ⟨C1, h4⟩ := bondStep_isOk (k := k) (L := BLn) (R := getBR s i)
-    (cnorm_pos_flat2 ctx.norm (by rw [hfrobC]; exact one_pos)) hm (ctx.eigh _ _) (-(k.half * dt))
+    ctx.norm (cnorm_pos_flat2 ctx.norm (by rw [hfrobC]; exact one_pos)) hm (ctx.eigh _ _) (-(k.half * dt))
   obtain ⟨c0, c1⟩ := bondStep_dims h4
   have hc : C1.n = (getA s (i + 1)).d1 := by rw [c1, hCn, a2, s2, n1]
   -- 5. assemble
@@ -333,7 +333,7 @@ theorem tdvp1Right_ok (ctx : SweepCtx k H qd numiter) (hexp : ∀ x : ℝ, ‖k.
     rw [← frob_mulLeft hAiIso hCtn, frob3_congr (X := mulLeft Ct Ai) (Y := Ac) rfl hCtm rfl (rightQR_recon hf),
       centre_frob ctx h.d]
   obtain ⟨C1, h3⟩ := bondStep_isOk (k := k) (L := getBL s (j + 1)) (R := BRn)
-    (cnorm_pos_flat2 ctx.norm (by rw [hfrobC]; exact one_pos)) hm (ctx.eigh _ _) (-(k.half * dt))
+    ctx.norm (cnorm_pos_flat2 ctx.norm (by rw [hfrobC]; exact one_pos)) hm (ctx.eigh _ _) (-(k.half * dt))
   obtain ⟨c0, c1⟩ := bondStep_dims h3
   have hc : C1.m = (getA s j).d2 := by rw [c0, hCtm, s1, p2]
   -- 4. forward half step of the new centre tensor
